@@ -601,8 +601,6 @@ class ReverseIdSet(DocIdSet):
     def last(self):
         idset = self.idset
         maxid = self.limit - 1
-        if idset.last() < maxid - 1:
-            return maxid
 
         for i in xrange(maxid, -1, -1):
             if i not in idset:
